@@ -809,6 +809,13 @@ def mk_call(fn, args=(), kwargs=()):
         fn = 'floor'
     if fn in EVEN and len(args) == 1 and leading_sign(args[0]) < 0:
         args = [-args[0]]
+    if fn == 'isinstance' and len(args) == 2 and not kwargs:
+        # isinstance(x, (A, B))  ==  isinstance(x, A) or isinstance(x, B): one proposition per class
+        ca = args[1].single_atom()
+        if ca is not None and ca.kind == 'tuple' and len(ca.args) > 1:
+            return mk_or([mk_call('isinstance', [args[0], c]) for c in ca.args])
+        if ca is not None and ca.kind == 'tuple' and len(ca.args) == 1:
+            args = [args[0], ca.args[0]]
     if fn in ('minimum', 'maximum') and len(args) == 2 and not kwargs:
         fn = fn[:3]             # element-wise minimum/maximum of two values: the same function as two-argument min/max
     if fn == 'clip' and len(args) == 1 and set(dict(kwargs)) == {'a_min', 'a_max'}:
